@@ -145,6 +145,10 @@ def plan_C01(tier, rng):
         allb = list(range(F["emin"], F["emax"] + 1))
         if quick:
             binades = samp(rng, allb, 130 if F is F64 else 60)
+            # always: binades where the halfway integer (2m+1) * 2^(e-1) has a bit length next to a multiple of 64 (limb
+            # boundaries of the big-integer slow path; S-C01-c: sticky flag of hi64 lost when the length is a multiple of 64)
+            limb = [e for e in allb if e >= 1 and (e + F["p"]) % 64 in (0, 1, 63)] + [e for e in allb if e < 0 and (-e) % 64 in (0, 1, 63)]
+            binades = sorted(set(binades) | set(limb if F is F64 else limb[:40]))
             longb = set(samp(rng, binades, 12))
         else:
             binades = allb
@@ -311,6 +315,16 @@ def plan_C03(tier, rng):
             ep = cs.new_ep()
             for v in gens.boundary_ints(ty, 10, rng, 6):
                 cs.write(ep, ty, fid, str(v), c, wo=True, tag="sign-flag-format")
+    # formats whose exponent digits use another radix than the mantissa: integers are written in the mantissa radix
+    # (S-C03-c: signed integers written in the exponent radix)
+    if "rf" in cfgs:
+        for fname in ("sepmix4_2_x10_i", "sepmix8_2_x10_i", "sepmix16_2_x10_i", "sepmix16_4_x4_i", "sepmix32_2_x10_i", "syn_hex_prefix"):
+            fid = fmt_id(fname)
+            mr = [a for (n_, a) in fmt_tags()[fid]["calls"] if n_ == "mantissa_radix"][0]
+            for ty in gens.INT_TYPES:
+                ep = cs.new_ep()
+                for v in gens.boundary_ints(ty, mr, rng, 2 if quick else 20)[:: (3 if quick else 1)]:
+                    cs.write(ep, ty, fid, str(v), ["rf"], wo=True, tag="mixed-radix-format")
     models = [("MC_BigNat.tla", "MC_BigNat.cfg", 4, 600),
               ("MC_IntWrite.tla", "MC_IntWrite_quick.cfg" if quick else "MC_IntWrite.cfg", 8, 3600)]
     return cs, models, {"input_families": cs.tags, "configurations": cfgs,
@@ -393,6 +407,17 @@ def plan_C04(tier, rng):
         ty = rng.choice(list(gens.INT_TYPES))
         cs.parse(ep, ty, 0, data, [rng.choice(cfgs)], std=True, tag="random-bytes")
         cs.parse(ep, ty, 0, data, [rng.choice(cfgs)], partial=True)
+    # formats whose exponent digits use another radix than the mantissa: integers are read in the mantissa radix
+    if "rf" in cfgs or True:
+        for fname in ("sepmix4_2_x10_i", "sepmix16_2_x10_i", "sepmix16_4_x4_i", "sepmix32_2_x10_i", "syn_hex_prefix"):
+            fid = fmt_id(fname)
+            mr = [a for (n_, a) in fmt_tags()[fid]["calls"] if n_ == "mantissa_radix"][0]
+            for ty in gens.INT_TYPES:
+                ep = cs.new_ep()
+                for v in gens.boundary_ints(ty, mr, rng, 2)[::3]:
+                    s_ = gens.int_numeral(v, mr, lower=(v % 2 == 0))
+                    cs.parse(ep, ty, fid, s_, ["rf"], wo=True, tag="mixed-radix-format")
+                    cs.parse(ep, ty, fid, s_ + "9z", ["rf"], wo=True, partial=True)
     # digit classification is exhaustive over bytes: every byte value between two digits and after a sign, every radix
     # (S-C04-b: control bytes 0x10..0x19 folded onto '0'..'9' by a case-folding shortcut)
     for r in range(2, 37):
